@@ -81,6 +81,9 @@ def mon_c16(h, outs):
 
 
 MONITORS = [mon_c16]
+NAMED = ["Unique Identifier", "Name", "Object Type", "Cryptographic Algorithm", "Cryptographic Length", "Operation Policy Name",
+         "Cryptographic Usage Mask", "State", "Initial Date", "Object Group", "Application Specific Information", "Sensitive",
+         "Certificate Type"]
 
 
 def matrix_builder(g, E, do, length):
@@ -124,6 +127,10 @@ def matrix_builder(g, E, do, length):
         for uid in range(1, len(objs) + 1):
             req(v, [{"op": "getAttributeList", "bid": None, "crypto": None, "uid": str(uid)}])
             req(v, [{"op": "getAttributes", "bid": None, "crypto": None, "uid": str(uid), "names": []}])
+            # ... and asked for BY NAME: every attribute the object may hold, all at once and a few alone
+            req(v, [{"op": "getAttributes", "bid": None, "crypto": None, "uid": str(uid), "names": list(NAMED)}])
+            for nm in g.r.sample(NAMED, 2) + ["Operation Policy Name", "Sensitive"]:
+                req(v, [{"op": "getAttributes", "bid": None, "crypto": None, "uid": str(uid), "names": [nm]}])
         for op in list(OPNUM.values()) + ["unsupported"]:
             for _ in range(2):
                 it = g.item(op=op, version=v)
